@@ -82,8 +82,10 @@ def check_no_alloc(ctx, F):
     ctx.instance("C11.no-alloc", "includes", {"system_includes": sorted(incs)})
     for i in sorted(incs - ALLOWED_INCLUDES):
         ctx.violation("C11.no-alloc", "include/" + i, "#include %s>" % i, "the library includes %s>, which is not one of the allocation-free headers it is known to need" % i, {})
-    # members: no pointer-owning standard containers (record types of the library are scalars / arrays / references / library records)
-    for t in F.types:
+    # members: no pointer-owning standard containers (record types of the library are scalars / arrays / references / library records).
+    # Judged on the witness zoo, whose context / payload / generator types are plain structs: in the repository's test TUs a member
+    # may have a *user-supplied* type (Context = std::vector<...>), which is the user's storage, not the library's.
+    for t in (F.types if not F.label.startswith("test_") else ()):
         if t.get("inroots") and t.get("complete") and not t.get("dependent"):
             for f in t.get("fields", []):
                 ft = F.type(f.get("tid"))
